@@ -552,19 +552,42 @@ def orders_for(rng, names, k):
 # ------------------------------------------------------------------------------------------------
 # L1: direct calls of gen_symbols_samples
 # ------------------------------------------------------------------------------------------------
-def run_l1(cfg):
+def run_l1(cfg, patience=5):
     """cfg = {symbols, sf, consts, samples}; returns (status, value, log)"""
     from mitxgraders import sampling
     from mitxgraders.helpers.calc.mathfuncs import DEFAULT_FUNCTIONS, DEFAULT_SUFFIXES
     sampling.set_seed(stable_seed('np', cfg.get('tag', 0)) % (2 ** 32))
-    st, sample_from = core.guarded(lambda: {s: make_sampler(s, cfg['sf'][s]) for s in cfg['sf']})
+    st, sample_from = core.guarded(lambda: {s: make_sampler(s, cfg['sf'][s]) for s in cfg['sf']}, seconds=LONG)
     if st != 'ret':
         return 'construct-' + st, sample_from, []
     consts = {c: const_value(cfg['consts'][c]) for c in cfg['consts']}
     del LOG[:]
     st, out = core.guarded(sampling.gen_symbols_samples, list(cfg['symbols']), cfg['samples'], sample_from,
-                           DEFAULT_FUNCTIONS, DEFAULT_SUFFIXES, consts, seconds=5)
+                           DEFAULT_FUNCTIONS, DEFAULT_SUFFIXES, consts, seconds=patience)
+    if st == 'timeout' and confirm_timeout(patience):
+        return run_l1(cfg, patience=LONG)        # a loaded machine is not a looping implementation: ask again, patiently
     return st, out, list(LOG)
+
+
+LONG = 90
+TIMEOUTS = {'confirmed': 0, 'faced': 0}
+
+
+def confirm_timeout(patience):
+    """True when a timed-out call should be repeated with a long limit.  After two calls that did not return within
+    the long limit either, timeouts are taken at face value (the witnesses exist; the run must still end)."""
+    if patience >= LONG:
+        TIMEOUTS['confirmed'] += 1
+        return False
+    if TIMEOUTS['confirmed'] < 2:
+        return True
+    TIMEOUTS['faced'] += 1
+    return False
+
+
+def give_up_on_loops():
+    """after two confirmed and six further non-returning calls, cyclic declarations are no longer run (noted in the evidence)"""
+    return TIMEOUTS['confirmed'] >= 2 and TIMEOUTS['faced'] >= 6
 
 
 def config_error(x):
@@ -589,7 +612,7 @@ def oracle_l1(cfg, st, out, log):
     symbols, sf, consts, k = cfg['symbols'], cfg['sf'], cfg['consts'], cfg['samples']
     kind, _ = analyze(symbols, sf, consts)
     if st == 'timeout':
-        return ['call did not return within 5 s (%s declaration)' % kind]
+        return ['call did not return (limit 5 s, repeated with %d s) on a %s declaration' % (LONG, kind)]
     if kind != 'ok':
         if st == 'exc' and config_error(out):
             return []
@@ -634,7 +657,7 @@ def oracle_l1(cfg, st, out, log):
             if sf[s][0] != 'dep':
                 continue
             others = {key: val for key, val in d.items() if key != s}
-            est, ev = core.guarded(evaluator, render(fromlist(sf[s][1])), others, DEFAULT_FUNCTIONS, DEFAULT_SUFFIXES)
+            est, ev = core.guarded(evaluator, render(fromlist(sf[s][1])), others, DEFAULT_FUNCTIONS, DEFAULT_SUFFIXES, seconds=LONG)
             if est != 'ret':
                 fails.append('sample %d: formula of %s does not evaluate on the other values of the sample: %r' % (i, s, ev))
             elif not same_value(ev[0], d[s]):
@@ -802,7 +825,7 @@ def l1_graphs(ctx, rng):
     """yield (label, names, sf, consts, orders, samples)"""
     quick = ctx['tier'] == 'quick'
     big = ctx['escalate'] and not quick
-    n_random = 220 if quick else 1500
+    n_random = 190 if quick else 1500
     k_orders = 8 if quick else 16
     for g in range(n_random):
         names, sf, consts = gen_graph(rng, 'g%d/%d' % (ctx['seed'], g))
@@ -844,6 +867,9 @@ def level1(ctx, res, rng):
     for label, names, sf, consts, orders, samples in l1_graphs(ctx, rng):
         runs = []
         kind, _ = analyze(names, sf, consts)
+        if kind in ('cyclic', 'both') and give_up_on_loops():
+            dist['L1 cyclic graphs skipped after repeated non-termination'] = dist.get('L1 cyclic graphs skipped after repeated non-termination', 0) + 1
+            continue
         for order in orders:
             cfg = {'level': 'L1', 'symbols': order, 'sf': sf, 'consts': consts, 'samples': samples, 'tag': cfg_tag(names, sf)}
             st, out, log = run_l1(cfg)
@@ -898,7 +924,7 @@ def level0(ctx, res, rng):
     terms, metas = [], []
     alphabet = 'ab_{}-0159x|.'
     for heads in HEAD_SETS:
-        st, rx = core.guarded(numbered_vars_regexp, heads)
+        st, rx = core.guarded(numbered_vars_regexp, heads, seconds=LONG)
         if st != 'ret':
             res.witnesses.append({'key': 'L0:%r' % heads, 'kind': 'regexp', 'heads': heads, 'string': None,
                                   'what': 'numbered_vars_regexp(%r) raised %r' % (heads, rx)})
@@ -1056,7 +1082,7 @@ def gen_l2(rng, tag):
             'suppress': any(c in DEFAULT_CONST_SPECS for c in user_consts) or any(v in DEFAULT_CONST_SPECS for v in variables + heads)}
 
 
-def run_l2(cfg):
+def run_l2(cfg, patience=8):
     """build the grader, call it with the answer itself as student input, observing samples and seen values"""
     from mitxgraders import FormulaGrader
     from mitxgraders import sampling
@@ -1073,7 +1099,7 @@ def run_l2(cfg):
                              sample_from=sample_from, user_constants={c: const_value(v) for c, v in cfg['user_consts'].items()},
                              user_functions={'rec': make_recorder(max(1, len(watch)), seen)} if watch else {},
                              samples=cfg['samples'], suppress_warnings=cfg['suppress'])
-    st, g = core.guarded(build)
+    st, g = core.guarded(build, seconds=LONG)
     if st != 'ret':
         return 'construct-' + st, g, seen, calls, []
     orig = math_helpers.gen_symbols_samples
@@ -1090,9 +1116,11 @@ def run_l2(cfg):
     del LOG[:]
     math_helpers.gen_symbols_samples = wrapped
     try:
-        st, out = core.guarded(g, None, student, seconds=8)
+        st, out = core.guarded(g, None, student, seconds=patience)
     finally:
         math_helpers.gen_symbols_samples = orig
+    if st == 'timeout' and confirm_timeout(patience):
+        return run_l2(cfg, patience=LONG)
     return st, out, seen, calls, list(LOG)
 
 
@@ -1112,7 +1140,7 @@ def oracle_l2(cfg, st, out, seen, log):
         full_sf[u] = sf[is_instance_name(u, heads)]
     kind, _ = analyze(symbols, full_sf, consts)
     if st == 'timeout':
-        return ['grader call did not return within 8 s']
+        return ['grader call did not return (limit 8 s, repeated with %d s)' % LONG]
     if st.startswith('construct'):
         return ['grader construction failed: %r' % (out,)]
     if kind != 'ok':
@@ -1146,7 +1174,7 @@ def oracle_l2(cfg, st, out, seen, log):
                 if not expr_vars(e) <= set(watch):
                     continue
                 others = {key: val for key, val in vals.items() if key != nm}
-                est, ev = core.guarded(evaluator, render(e), others, DEFAULT_FUNCTIONS, DEFAULT_SUFFIXES)
+                est, ev = core.guarded(evaluator, render(e), others, DEFAULT_FUNCTIONS, DEFAULT_SUFFIXES, seconds=LONG)
                 if est != 'ret':
                     fails.append('sample %d: formula of %s does not evaluate on the values seen: %r' % (i, nm, ev))
                 elif not same_value(complex(ev[0]), complex(vals[nm])):
@@ -1182,6 +1210,9 @@ def level2(ctx, res, rng):
     dist = {}
     for g in range(n_cases):
         cfg = gen_l2(rng, 'l2/%d/%d' % (ctx['seed'], g))
+        if cfg['variant'] == 'cyclic' and give_up_on_loops():
+            dist['L2 cyclic skipped after repeated non-termination'] = dist.get('L2 cyclic skipped after repeated non-termination', 0) + 1
+            continue
         st, out, seen, calls, log = run_l2(cfg)
         res.oracle_evals += 1
         for text in oracle_l2(cfg, st, out, seen, log):
@@ -1249,7 +1280,7 @@ def level2(ctx, res, rng):
 
 
 # --- siblings: ListGrader passes the student's sibling inputs as dependent variables -----------------------------
-def run_sib(cfg):
+def run_sib(cfg, patience=8):
     from mitxgraders import FormulaGrader, ListGrader
     from mitxgraders import sampling
     from mitxgraders.helpers import math_helpers
@@ -1263,7 +1294,7 @@ def run_sib(cfg):
                             user_functions={'rec': make_recorder(len(watch), seen)})
         answers = [render(fromlist(e)) for e in cfg['inputs'][:-1]] + ['rec(%s)' % ','.join(watch)]
         return ListGrader(answers=answers, subgraders=sub, ordered=True)
-    st, g = core.guarded(build)
+    st, g = core.guarded(build, seconds=LONG)
     if st != 'ret':
         return 'construct-' + st, g, seen, calls
     inputs = [render(fromlist(e)) for e in cfg['inputs'][:-1]] + ['0']
@@ -1283,9 +1314,11 @@ def run_sib(cfg):
     del LOG[:]
     math_helpers.gen_symbols_samples = wrapped
     try:
-        st, out = core.guarded(g, None, inputs, seconds=8)
+        st, out = core.guarded(g, None, inputs, seconds=patience)
     finally:
         math_helpers.gen_symbols_samples = orig
+    if st == 'timeout' and confirm_timeout(patience):
+        return run_sib(cfg, patience=LONG)
     return st, out, seen, calls
 
 
@@ -1363,6 +1396,7 @@ def sib_cases(ctx, res, rng, dist, terms, metas):
 # ------------------------------------------------------------------------------------------------
 def run(ctx):
     res = core.Result()
+    TIMEOUTS.update(confirmed=0, faced=0)
     rng = random.Random(1000003 * ctx['seed'] + 13)
     res.rule = ('L1: one case per (declaration, declaration order): random DAGs of 1..8 variables (chains, diamonds, fan-in/out, '
                 'constants, vectors, index-like names, names shadowing constants) and their cyclic/dangling/both variants, every '
@@ -1382,7 +1416,7 @@ def replay(w):
     if kind == 'regexp':
         from mitxgraders.helpers.math_helpers import numbered_vars_regexp
         heads, s = w['heads'], w['string']
-        st, rx = core.guarded(numbered_vars_regexp, heads)
+        st, rx = core.guarded(numbered_vars_regexp, heads, seconds=LONG)
         if st != 'ret':
             return True, 'numbered_vars_regexp(%r) raises %r' % (heads, rx)
         m = rx.match(s)
